@@ -72,6 +72,7 @@ type Directive struct {
 	Fault string   `json:"fault"` // none | before | after (store gates)
 	Ans   *AnsSpec `json:"ans"`   // IdP gates
 	Jwks  string   `json:"jwks"`  // ok | fail (key-source gates)
+	Cancel bool    `json:"cancel"` // the request's context is cancelled at this gate (Envoy's timeout fired, the client went away); the step itself proceeds
 }
 
 // Step is one scenario step.
